@@ -84,12 +84,19 @@ def stepAttr (st : St) (a : String) : St :=
 def viewF (name : String) (arity : Nat) : VFun String PV :=
   ⟨arity, fun _ xs => name ++ "(" ++ ",".intercalate xs ++ ")"⟩
 
+/-- view functions whose result is a NUMBER (a reduction over all axes, keepdims false): `View.snode` -/
+def numberValued (n : String) : Bool := n == "reduce_add_all" || n == "reduce_max_all"
+
 mutual
 partial def toView : Term → Option (View String PV)
-  | .mk n [] => n.toNat?.map .leaf
+  | .mk n [] =>
+      -- `<j>` host array j, `a<j>` the same behind view::alias, `s<j>` operand j is a number literal
+      if n.startsWith "a" then (n.drop 1).toString.toNat?.map .alias
+      else if n.startsWith "s" then (n.drop 1).toString.toNat?.map .lit
+      else n.toNat?.map .leaf
   | .mk n as => do
       let args ← toArgs as
-      pure (.node (viewF n as.length) [] args)
+      pure (if numberValued n then .snode (viewF n as.length) [] args else .node (viewF n as.length) [] args)
 partial def toArgs : List Term → Option (Args String PV)
   | [] => some .nil
   | t :: ts => do pure (.cons (← toView t) (← toArgs ts))
@@ -101,6 +108,7 @@ partial def decorate (n : Nat) : Term → Option (IView × Nat)
   | .mk nm [] =>
       -- `a<j>`: leaf behind view::alias(x_j, j): node id j, shared by every occurrence; `<j>`: un-aliased occurrence, fresh id
       if nm.startsWith "a" then (nm.drop 1).toString.toNat?.map fun i => (.leaf i i, n)
+      else if nm.startsWith "s" then (nm.drop 1).toString.toNat?.map fun i => (.leaf n i, n + 1)
       else nm.toNat?.map fun i => (.leaf n i, n + 1)
   | .mk _ as => do
       let (args, n') ← decorateArgs n as
@@ -141,7 +149,7 @@ def handle : Handler := fun op a =>
         | some (.values vs) => ";".intercalate vs
         | some (.curried _) => "curried"
         | none => "void"
-      pure s!"ok leaves={fmtNats ops} ll={if v.leftLinear then 1 else 0} nfun={v.compile.length} arity={Comp.arity ⟨v.compile, []⟩} term={res} view={v.denote env}"
+      pure s!"ok leaves={fmtNats ops} ll={if v.leftLinear then 1 else 0} nfun={v.compile.length} nops={v.nOps} arity={Comp.arity ⟨v.compile, []⟩} term={res} view={v.denote env}"
   | "c14_graph" => orBad do
       let t ← (a.get? "tree").bind parse
       let (iv, _) ← decorate 1000 t
